@@ -246,6 +246,67 @@ class Analysis:
                 # every SPEC field of a built struct is fed by an input or a constant the statement allows
         return viol, n
 
+    # ---- error productions (used by C03 / C14) -----------------------------------------------------------------------------
+    def error_productions(self):
+        """every `X = error` production's action pushes at least one diagnostic on every path (a recovered syntax error is never silent)
+        -> (paths examined, [problems])"""
+        bad, n = [], 0
+        for r, (lhs, rhs, act) in sorted(self.T.prod.items()):
+            try:
+                P = acteval.Production(self.A, r, lhs, rhs, act)
+            except acteval.Unsupported as e:
+                continue
+            if not isinstance(P.leaf, acteval.Leaf) or not is_error_production(P.rhs):
+                continue
+            try:
+                res = content.eval_leaf(self.E, P.leaf, P.rhs)
+            except Unsupported as e:
+                bad.append('%s = error: action outside the evaluator (%s)' % (lhs, str(e)[:100])); continue
+            for conds, v in res:
+                n += 1
+                if not (isinstance(v, tuple) and v and v[0] in ('ok', 'some', 'none')):
+                    bad.append('%s = error: the action may return something other than Ok (%s): a user error would reach the caller without a diagnostic' % (lhs, content.show(v)[:60]))
+                if not any(c == ('pushed_diag',) for c in conds):
+                    why = [c for c in conds if c and c[0] == 'maybe_diag' and c[2] is False]
+                    if why and why[0][1] == 'from_error_recovery' and self.recovery_none_only_for_user():
+                        continue      # None only for ParseError::User, which nothing in the crate constructs
+                    bad.append('%s = error: a path of the action pushes no diagnostic%s' % (lhs, (' (%s returned None)' % why[0][1]) if why else ''))
+        return n, bad
+
+    def recovery_none_only_for_user(self):
+        """from_error_recovery(..) is from_parse_error(lookup, recovery.error).map(closure): it is None exactly when from_parse_error is,
+        i.e. (C03's obligation on from_parse_error) only for ParseError::User - and no User error is constructed anywhere in the crate"""
+        if hasattr(self, '_rnofu'):
+            return self._rnofu
+        prog = self.E.prog
+        f = [g for g in prog.fns if re.search(r'<impl at [^>]*>::from_error_recovery$', g.name) and '::verif' not in g.name]
+        ok = False
+        if len(f) == 1:
+            calls = []
+            for b in f[0].blocks.values():
+                for st in b:
+                    sc = mir.split_call(st.rstrip(';'))
+                    if sc:
+                        calls.append(re.sub(r'::<.*?>(?=::|$)', '', sc[1]).split('::')[-1])
+            core = [c for c in calls if c not in ('clone', 'deref', 'to_owned', 'as_ref')]
+            ok = core == ['from_parse_error', 'map'] or core == ['from_parse_error', 'map'][:len(core)] and len(core) == 2
+        users = 0
+        for g in prog.fns:
+            if '::verif' in g.name or 'aidl.rs:' in g.name:
+                continue      # the generated `to_triple` glue wraps an Err returned by a fallible user action: those actions are checked to return Ok below
+            for b in g.blocks.values():
+                for st in b:
+                    if re.search(r'ParseError::<[^;]*>::User\b|ParseError::User\b', st) and '=' in st and 'discriminant' not in st and 'as User' not in st:
+                        if re.search(r'= [^;]*ParseError(::<[^;]*>)?::User \{', st) or re.search(r'= [^;]*ParseError(::<[^;]*>)?::User\(', st):
+                            users += 1
+        import c03
+        try:
+            tot = c03.from_parse_error_total(prog)[0]
+        except Exception:
+            tot = False
+        self._rnofu = bool(ok and users == 0 and tot)
+        return self._rnofu
+
     # ---- ranges (used by C04) --------------------------------------------------------------------------------------------------
     def range_endpoints(self):
         """every endpoint of every Range a grammar action builds must be a position the grammar captured (`@L` / `@R`), never
@@ -508,3 +569,21 @@ class Analysis:
                     if rr != z3.unsat:
                         viol.setdefault('declared-parcelable-name', []).append({'production': prod, 'qualified_name': str(s.model().eval(q, True)) if rr == z3.sat else 'unknown'})
         return viol, nq
+
+
+def silent_recovery_obligation(run, engine='A'):
+    """shared by C03 and C14: obligation + native confirmation"""
+    import native, replay
+    title = 'every error production of the grammar pushes at least one diagnostic on every path of its action (a recovered syntax error is never silent)'
+    try:
+        An = Analysis(replay.generated_parser(), mir.Program(mir.dump_mir()))
+        n, bad = An.error_productions()
+    except (Unsupported, RuntimeError) as e:
+        run.inconclusive(title, engine, str(e)); return
+    if not n:
+        run.inconclusive(title, engine, 'no error production found'); return
+    if bad:
+        cnt, nb = native.sweep_silent_recovery()
+        run.violated(title, engine, 'silent-recovery', {'detail': bad[:3], 'native': nb[:2]}, bool(nb), queries=n, detail=bad[0])
+    else:
+        run.holds(title, engine, queries=n, bound='all paths of the %d error-production actions' % n)
